@@ -68,10 +68,13 @@ theorem decodeHeader_append_ok {bs : Bytes} {h : Hdr} (c : Bytes) (e : decodeHea
     simp only at e
     split at e
     · cases e
-    · rename_i a b hl
-      have := lenField_append c hl
-      simp only [List.cons_append, decodeHeader, this]
-      exact mkHdr_append_ok c e
+    · rename_i htk
+      split at e
+      · cases e
+      · rename_i a b hl
+        have := lenField_append c hl
+        simp only [List.cons_append, decodeHeader, this, htk, if_false]
+        exact mkHdr_append_ok c e
 
 theorem decodeHeader_append_invalid {bs : Bytes} (c : Bytes) (e : decodeHeader bs = .invalid) :
     decodeHeader (bs ++ c) = .invalid := by
@@ -81,11 +84,15 @@ theorem decodeHeader_append_invalid {bs : Bytes} (c : Bytes) (e : decodeHeader b
   | cons first rest =>
     simp only at e
     split at e
-    · cases e
-    · rename_i a b hl
-      have := lenField_append c hl
-      simp only [List.cons_append, decodeHeader, this]
-      exact mkHdr_append_invalid c e
+    · rename_i htk
+      simp only [List.cons_append, decodeHeader, htk, if_true]
+    · rename_i htk
+      split at e
+      · cases e
+      · rename_i a b hl
+        have := lenField_append c hl
+        simp only [List.cons_append, decodeHeader, this, htk, if_false]
+        exact mkHdr_append_invalid c e
 
 theorem proc_short {max : Nat} {buf : Bytes} {out : List Msg} (h : decodeHeader buf = .short) :
     proc max buf out = ⟨buf, out, false⟩ := by
